@@ -109,7 +109,7 @@ contract TargetsManager.updateStatus
   requires t != nil && wfTargets(t.targets.Targets) && uniqueHashes(t.targets.Targets)
   requires (forall h, st in t.targets.Status :: st != nil) && injectiveStatus(t.targets.Status)
   ensures[C10] @exactly_the_assigned_hashes assignedHaveStatus(t) && witnessed(t, t.targets.Status, keys(t.targets.Targets)) && statusEntriesNonNil(t)
-  ensures[C10] @kept_targets_keep_their_status forall h, st in t.targets.Status :: (h in old(keys(t.targets.Status)) ==> st == old(t.targets.Status[h]))
+  ensures[C10,C14] @kept_targets_keep_their_status forall h, st in t.targets.Status :: (h in old(keys(t.targets.Status)) ==> st == old(t.targets.Status[h]))
   ensures[C10] @new_targets_start_fresh forall job, l in t.targets.Targets :: forall tar in l :: (!(tar.Hash in old(keys(t.targets.Status))) ==>
         (fresh(t.targets.Status[tar.Hash]) && t.targets.Status[tar.Hash].Health == "unknown" && t.targets.Status[tar.Hash].ScrapeTimes == 0
          && t.targets.Status[tar.Hash].Series == tar.Series && t.targets.Status[tar.Hash].TotalSeries == tar.TotalSeries))
@@ -157,7 +157,7 @@ contract TargetsManager.UpdateTargets
   requires statusEntriesNonNil(t) && injectiveStatus(t.targets.Status)
   ensures[C10] @invariant_after_every_update invTargets(t)
   ensures[C10] @assignment_is_the_request t.targets.Targets == req.Targets
-  ensures[C10] @kept_targets_keep_their_status forall h, st in t.targets.Status :: (h in old(keys(t.targets.Status)) ==> st == old(t.targets.Status[h]))
+  ensures[C10,C14] @kept_targets_keep_their_status forall h, st in t.targets.Status :: (h in old(keys(t.targets.Status)) ==> st == old(t.targets.Status[h]))
   ensures[C10] @state_as_requested forall job, l in req.Targets :: forall tar in l :: t.targets.Status[tar.Hash].TargetState == tar.TargetState
   ensures[C10] @idle_instant_kept (len(t.targets.Status) == 0 && old(t.targets.IdleAt) != nil) ==> t.targets.IdleAt == old(t.targets.IdleAt)
   modifies TargetsManager.targets at {t}, target.ScrapeStatus.TargetState, target.ScrapeStatus.ScrapeTimes, target.ScrapeStatus.* at {},
